@@ -191,6 +191,7 @@ class _State:
         self.open = {}        # rid -> node idx
         self.adj = set()      # frozenset pairs
         self.opened_at = {}   # rid -> Node object (to drop dangling)
+        self.opened_entry = {}  # rid -> the ring entry (list object) that opened it
 
 
 def gen_chain(R, st, names, budget, depth, anchor, cfg):
@@ -223,7 +224,11 @@ def gen_chain(R, st, names, budget, depth, anchor, cfg):
                 used_here.add(rid)
             elif len(st.open) < cfg['max_open']:
                 free = [r for r in range(0, 10) if r not in st.open and r not in used_here]
-                if R.chance(0.3) or not free:
+                closed_here = [r[1] for r in nd.rings if r[1] not in st.open and [x[1] for x in nd.rings].count(r[1]) == 1]
+                if closed_here and R.chance(0.3):
+                    # the id of a ring bond closed at this node is re-used at once for a new one ('[#C]11')
+                    rid = R.choice(closed_here)
+                elif R.chance(0.3) or not free:
                     rid = R.choice([r for r in (10, 11, 12, 25, 99, 100, 123, 134, 256)
                                     if r not in st.open and r not in used_here])
                 else:
@@ -232,6 +237,7 @@ def gen_chain(R, st, names, budget, depth, anchor, cfg):
                 st.open[rid] = idx
                 st.opened_at[rid] = nd
                 nd.rings.append([o, rid, _marker_text(R, rid)])
+                st.opened_entry[rid] = nd.rings[-1]
                 used_here.add(rid)
         _order_markers(nd)
         while budget[0] > 0 and depth < cfg['max_depth'] and len(nd.branches) < cfg['max_branches'] \
@@ -272,7 +278,7 @@ def gen_ast(R, names=('A', 'B', 'C'), max_nodes=8, min_nodes=1, **kw):
         # drop markers never closed
         for rid in st.open:
             nd = st.opened_at[rid]
-            nd.rings = [r for r in nd.rings if r[1] != rid]
+            nd.rings = [r for r in nd.rings if r is not st.opened_entry[rid]]
     return chain
 
 
@@ -498,6 +504,8 @@ def mult_features(chain, feats=None, depth=0, top=True, in_unit=False):
                     feats.add('order_in_unit')
                 if any(x.annot for x in subn) or nd.annot:
                     feats.add('annot_in_unit')
+                if len(nd.branches) > 1:
+                    feats.add('plain_branch_after_unit_on_last_anchor_copy')
                 if depth > 0:
                     feats.add('branch_mult_in_branch')
                 if top and pos == 0:
@@ -625,12 +633,15 @@ def expand(chain):
             # all but the last copy are plain nodes; the last copy carries rings / branches / the unit
             for k in range(nd.mult - 1):
                 out.append(Node(nd.name, nd.annot, nd.attrs))
-        if len(brs) == 1 and brs[0][2] is not None:
+        if brs and brs[0][2] is not None and all(b[2] is None for b in brs[1:]):
+            # anchor + first branch repeated n times; further (plain) branches hang on the last anchor copy
             o, sub, n, between = brs[0]
             for k in range(n):
                 c = Node(nd.name, nd.annot, nd.attrs)
                 c.rings = [list(r) for r in nd.rings]
                 c.branches = [[o, copy.deepcopy(sub), None, None]]
+                if k == n - 1:
+                    c.branches += [[o2, s2, None, None] for (o2, s2, _, _) in brs[1:]]
                 c.nxt = between if k < n - 1 else nd.nxt
                 out.append(c)
         else:
@@ -671,6 +682,9 @@ def gen_unit_ast(R, names=('A', 'B', 'C', 'D'), p_annot=0.0):
             nd.branches.append([osym(), flat(R.randint(1, 2)), None, None])
     anchor = node()
     anchor.branches.append([osym(), unit, R.choice(MULTS[:-1]), R.choice([None, None, 0, 1, 2, 3, 4])])
+    if R.chance(0.15):
+        # a further, plain branch written after the multiplied one: it belongs to the last copy of the anchor
+        anchor.branches.append([osym(), [node() for _ in range(R.randint(1, 2))], None, None])
     chain = [anchor]
     if R.chance(0.6):
         anchor.nxt = osym()
@@ -693,7 +707,7 @@ def gen_unit_ast(R, names=('A', 'B', 'C', 'D'), p_annot=0.0):
 def gen_big_mult_ast(R, names=('A', 'B', 'C')):
     """one multiplier of three or four digits (polymer-sized repeat counts) on a node or on a small
     anchor+branch unit, nothing else multiplied"""
-    n = R.choice([100, 101, 128, 250, 1000])
+    n = R.choice([100, 101, 128, 250])
 
     def node():
         return Node(R.choice(names), '', {})
